@@ -157,8 +157,8 @@ func genScript(r *rand.Rand, ln, idx int) c10Script {
 		n = 4 + r.Intn(5) // dense universes: collisions are the norm
 	}
 	s := c10Script{Cfg: &c, N: n, Src: "rnd"}
-	store := map[int]int{}   // abstract map: a -> v (0 absent)
-	nextV := map[int]int{}   // per address: versions handed out so far
+	store := map[int]int{} // abstract map: a -> v (0 absent)
+	nextV := map[int]int{} // per address: versions handed out so far
 	pickVer := func(a int, sp *objSpec) int {
 		// re-put keeps the version while the address is present (content-addressed objects)
 		if v := store[a]; v != 0 {
